@@ -38,7 +38,8 @@ MOUSE = {
 
 SIZES = [(1, 1), (2, 2), (3, 5), (10, 5), (49, 3), (80, 24), (200, 60)]   # cols x rows
 RESIZE = {'R%dx%d' % s: s for s in SIZES}
-TRAFFIC = ['New', 'Pos', 'Pos2', 'Far', 'Expire']
+TRAFFIC = ['New', 'Pos', 'Pos2', 'Far', 'Expire', 'Junk']
+JUNK_LINES = b'*;\n;\n*\n\n*zz;\n*00;\n*00000000000000;\n*8d;\n'
 
 SIGMA = (['F1', 'F2', 'F3', 'F4', 'F5', 'Tab', 'l', 'i', 'h', 't', 'n', '-', '+', 'Up', 'Down', 'Left', 'Right',
           'Enter', 'x'] + list(MOUSE) + list(RESIZE) + TRAFFIC)
@@ -55,6 +56,7 @@ OPTS = {
     'disable_all': ['--disable-lat-long', '--disable-callsign', '--disable-icao', '--disable-heading', '--disable-track'],
     'locations2': ['--locations', '(home,35.1,-80.1)', '(far,36,-79)'],
     'ft0': ['--filter-time=0'],
+    'limit_parsing': ['--limit-parsing'],
 }
 
 CLI = [
@@ -203,6 +205,9 @@ def compile_script(feed, tracked, opts, size, delivery, seq, quit_key='q'):
                 steps.append({'op': 'lines', 'hex': hexs(feed.l['a1_far_1']), 'n': 1, 'letters': [letter]})
                 if 'a1_ident' not in keep:
                     keep.append('a1_ident')
+            elif letter == 'Junk':
+                # lines that are not frames: radar has to skip them whatever its options are
+                steps.append({'op': 'lines', 'hex': hexs(JUNK_LINES), 'n': JUNK_LINES.count(b'\n'), 'letters': [letter]})
             elif letter == 'Expire':
                 keep = []
                 steps.append({'op': 'filler', 'on': True, 'cycle': [filler_line], 'letters': [letter]})
@@ -437,6 +442,19 @@ def enumerate_scripts(tier, feed):
                 for after in ('Up', 'Down', 'Enter', 'F1', 'New'):
                     add(tr, 'default', big, 'separated', ['F3'] + sel + ['Expire', after])
         bound['parts']['F3.{Down,DownDown,Up}.Expire.{-,Up,Down,Enter,F1,New} x {one_pos,three_mixed}'] = len(out) - n0
+        # touchscreen layout: a tab switch (the button column exists on the Map / Coverage tabs only) followed by a click
+        n0 = len(out)
+        clicks = ['ClkMap', 'ClkCov', 'ClkAir', 'ClkStats', 'ClkHelp', 'TsOut', 'TsIn', 'TsReset', 'DragC']
+        for tr in ('empty', 'one_pos'):
+            for dl in ('batched', 'separated'):
+                for tab in ('F2', 'F3', 'F4', 'F5', 'Tab'):
+                    for ck in clicks:
+                        add(tr, 'touchscreen', big, dl, [tab, ck])
+        # --limit-parsing with the traffic letters (the option changes how feed lines are filtered before decoding)
+        for tr in ('empty', 'three_mixed'):
+            for seq in ([], ['New'], ['Pos'], ['F3', 'New'], ['Expire'], ['Junk'], ['Junk', 'New']):
+                add(tr, 'limit_parsing', big, 'separated', seq)
+        bound['parts']['touchscreen: {F2,F3,F4,F5,Tab} x 9 clicks x {empty,one_pos} x delivery(2); --limit-parsing x traffic'] = len(out) - n0
         # position histories with a cleared record in the middle, drawn on every tab
         n0 = len(out)
         hist3 = list(itertools.product(['Pos', 'Pos2', 'Far'], repeat=3)) + list(itertools.product(['Pos', 'Pos2', 'Far'], repeat=2))
